@@ -6,6 +6,6 @@ CONSTANTS
   KeepMax = FALSE
 VIEW View
 CONSTRAINT Bound
-INVARIANTS Sound Complete RestartNoRegress MemAboveW
+INVARIANTS Sound Complete RestartNoRegress PersistDurable MemAboveW
 PROPERTY Monotone
 CHECK_DEADLOCK FALSE
